@@ -76,17 +76,34 @@ class Facts(Flow):
                 s = self._kill(s, n.id)
         return [s]
 
-    def branch(self, test, state):
-        t, f = state, state
-        # facts on the false branch of `not X or X.need_pre_expand [or ...]`
-        parts = test.values if isinstance(test, ast.BoolOp) and isinstance(test.op, ast.Or) else [test]
-        for p in parts:
-            if isinstance(p, ast.Attribute) and p.attr == "need_pre_expand" and isinstance(p.value, ast.Name):
-                f = f | {(p.value.id, "tested")}
+    @classmethod
+    def _unmarked_when(cls, test, polarity: bool) -> set:
+        """variables X for which `X.need_pre_expand` is known to be false when `test` evaluates to `polarity`"""
+        if isinstance(test, ast.Attribute) and test.attr == "need_pre_expand" and isinstance(test.value, ast.Name):
+            return set() if polarity else {test.value.id}
         if isinstance(test, ast.UnaryOp) and isinstance(test.op, ast.Not):
-            p = test.operand
-            if isinstance(p, ast.Attribute) and p.attr == "need_pre_expand" and isinstance(p.value, ast.Name):
-                t = t | {(p.value.id, "tested")}
+            return cls._unmarked_when(test.operand, not polarity)
+        if isinstance(test, ast.BoolOp):
+            conj = isinstance(test.op, ast.And)
+            if conj == polarity:  # all conjuncts hold / all disjuncts fail
+                out = set()
+                for v in test.values:
+                    out |= cls._unmarked_when(v, polarity)
+                return out
+            return set()
+        if isinstance(test, ast.Compare) and len(test.ops) == 1 and isinstance(test.comparators[0], ast.Constant):
+            l, op, c = test.left, test.ops[0], test.comparators[0].value
+            if isinstance(l, ast.Attribute) and l.attr == "need_pre_expand" and isinstance(l.value, ast.Name):
+                falsy_const = c in (0, False)
+                if isinstance(op, (ast.Eq, ast.Is)):
+                    return {l.value.id} if (polarity == falsy_const) and falsy_const else (set() if polarity else ({l.value.id} if not falsy_const else set()))
+                if isinstance(op, (ast.NotEq, ast.IsNot)):
+                    return {l.value.id} if (not polarity and falsy_const) or (polarity and not falsy_const and c in (1, True)) else set()
+        return set()
+
+    def branch(self, test, state):
+        t = state | {(v, "tested") for v in self._unmarked_when(test, True)}
+        f = state | {(v, "tested") for v in self._unmarked_when(test, False)}
         return [t], [f]
 
     def run_stmt(self, st, states):
